@@ -124,12 +124,35 @@ def harness(eng, ctx):
     props = ctx['props']
     cl = loader.load('spowtd.classify', 'R')
     rain, head, tr, tj = make_inputs(eng, N)
+    handed = []
+    original = cl.disambiguate_matching
+    if 'C02' in props:
+        def spy(rain_intervals, jump_intervals):
+            handed.append((list(rain_intervals), list(jump_intervals)))
+            return original(rain_intervals, jump_intervals)
+        cl.disambiguate_matching = spy
     try:
         result = cl.match_storms(nplite.array(rain), nplite.array(head), tr, tj)
     except Exception as e:  # every exception on a loadable input violates C01
         if 'C01' in props:
             eng.fail_exception(e)
         return
+    finally:
+        cl.disambiguate_matching = original
+    if 'C02' in props and handed:
+        # the many-to-many relation handed to the arbitration step must be exactly the
+        # overlapping (storm, rise) pairs of the record
+        is_rain = [bool(rain[i] > tr) for i in range(N)]
+        is_jump = [bool(head[i + 1] - head[i] > tj) for i in range(N - 1)]
+        want = set()
+        for s in runs_of(is_rain):
+            for (a, b) in runs_of(is_jump):
+                r = (a, b + 1)
+                if max(s[0], r[0]) <= min(s[1] - 1, r[1] - 2):
+                    want.add((s, r))
+        got = set(((int(a), int(b)), (int(c), int(d))) for (a, b), (c, d) in zip(*handed[0]))
+        eng.prove(got == want, 'C02: candidates are exactly the overlapping storm-rise pairs',
+                  detail='handed %r expected %r' % (sorted(got), sorted(want)))
     oracle(eng, props, N, rain, head, tr, tj, result)
     eng.note({'t': 'reached'})
     # witness replay on the real code with real numpy
@@ -223,6 +246,30 @@ def _replay_failure(N, failure, shift):
     info['observed'] = {'rain_intervals': r_iv, 'head_intervals': h_iv}
     if failure.get('kind') == 'exception':
         return False, info
+    if failure.get('label', '').startswith('C02: candidates'):
+        captured = []
+        orig = real.disambiguate_matching
+
+        def spy(ri, ji):
+            captured.append((list(ri), list(ji)))
+            return orig(ri, ji)
+        real.disambiguate_matching = spy
+        try:
+            real.match_storms(rain, head, tr, tj)
+        finally:
+            real.disambiguate_matching = orig
+        is_rain = [bool(v > tr) for v in rain]
+        is_jump = [bool(head[i + 1] - head[i] > tj) for i in range(N - 1)]
+        want = set()
+        for s_ in runs_of(is_rain):
+            for (a, b) in runs_of(is_jump):
+                r_ = (a, b + 1)
+                if max(s_[0], r_[0]) <= min(s_[1] - 1, r_[1] - 2):
+                    want.add((s_, r_))
+        got = set(((int(a), int(b)), (int(c), int(d))) for (a, b), (c, d) in zip(*captured[0])) if captured else set()
+        info['candidates_handed'] = sorted(got)
+        info['candidates_expected'] = sorted(want)
+        return got != want, info
     # an obligation failed: re-evaluate the same obligation concretely
     ok = concrete_oracle(failure.get('label', ''), N, rain, head, tr, tj, r_iv, h_iv)
     info['oracle_holds_concretely'] = ok
